@@ -24,7 +24,7 @@ ASSUMPTIONS = [
     "matching scales are generated in the natural order mu_c < mu_b < mu_t (eko's nf_default is defined for that order only)",
     "beta0 = 11 - 2 nf/3 typed in (a_s = alpha_s/4pi)",
 ]
-BUDGET = {"quick": {"examples": 2400, "wall": 300}, "thorough": {"examples": 60000, "wall": 2400}}
+BUDGET = {"quick": {"examples": 2400, "wall": 300}, "thorough": {"examples": 120000, "wall": 2400}}
 MANDATORY = {
     t: ["nontrivial", "clause:lo", "clause:beta", "clause:gluon", "clause:meta", "meta:pto2+scale-variations", "meta:run-spans-several-nf", "at:charm", "at:bottom", "at:top",
         "below:charm", "below:bottom", "below:top", "above:charm", "scheme:ZM-VFNS", "scheme:FFNS", "scheme:FFN0",
